@@ -6,6 +6,7 @@
 -/
 import GM.Proof.QuoteSimTree
 import GM.Proof.QuoteSimLeafA
+import GM.Proof.QuoteSimInv
 
 namespace GM.Blocks
 open GM GM.Text GM.Spec GM.Proof.Reader
@@ -16,10 +17,12 @@ open GM GM.Text GM.Spec GM.Proof.Reader
 def OKB (al : BP → Bool) (l : List Block) : Prop := ∀ b ∈ l, al b.bp = true ∧ b.node ≠ 0
 
 /-- the invariant of run A's parse context that the parser lemmas need -/
-structure AInv (al : BP → Bool) (pc : Ctx) : Prop where
+structure AInv (al : BP → Bool) (pc : Ctx) (nodes : List Node) : Prop where
   opened : OKB al pc.opened
   tmp : pc.tmpPara ≠ some 0
   fence : ∀ f, pc.fence = some f → 0 ≤ f.indent
+  /-- the store invariant of GM.Proof.QuoteSimInv: the Document has no lines, no List / ListItem node, node 0 is nobody's child -/
+  u : UStore nodes
 
 /-- every position the reader can take inside a line has a rest of the line in front of it, with a byte that is not
     a space (true when the source ends with `\n`: then every line does, and a position inside a line is before its `\n`) -/
@@ -29,24 +32,46 @@ def NS (src : Bytes) : Prop := ∀ k ls p, InL src k ls p → p < src.length ∧
     in a context satisfying `AInv`; Continue only when there is a current line. -/
 structure PS (src : Bytes) (al : BP → Bool) : Prop where
   open_ : ∀ bp, al bp = true → OpenSim src bp
-  cont : ∀ bp, al bp = true → ∀ k ls p node sA sB, SR src k ls p sA sB → node ≠ 0 → AInv al sA.pc → p < src.length →
+  cont : ∀ bp, al bp = true → ∀ k ls p node sA sB, SR src k ls p sA sB → node ≠ 0 → AInv al sA.pc sA.nodes → p < src.length →
     (∃ c ∈ (viewA src ls p).getD [], c ≠ 32) →
     S2 (fun a b sA' sB' => b = a ∧ ∃ p', SR src k ls p' sA' sB')
       (bpContinue bp node sA) (bpContinue bp (node + 1) sB)
-  close : ∀ bp, al bp = true → ∀ k ls p node sA sB, SR src k ls p sA sB → node ≠ 0 → AInv al sA.pc →
+  close : ∀ bp, al bp = true → ∀ k ls p node sA sB, SR src k ls p sA sB → node ≠ 0 → AInv al sA.pc sA.nodes →
     S2 (fun _ _ sA' sB' => SR src k ls p sA' sB') (bpClose bp node sA) (bpClose bp (node + 1) sB)
 
 /-- unary facts about run A: the parsers keep `AInv`; `RequireParagraph` is only answered when there is a last
     opened block -/
 structure Frames (al : BP → Bool) : Prop where
-  open_ : ∀ bp parent s a s', bpOpen bp parent s = .ok (a, s') → AInv al s.pc → AInv al s'.pc
-  cont : ∀ bp node s a s', bpContinue bp node s = .ok (a, s') → AInv al s.pc → AInv al s'.pc
-  close : ∀ bp node s a s', bpClose bp node s = .ok (a, s') → AInv al s.pc → AInv al s'.pc
+  open_ : ∀ bp parent s a s', bpOpen bp parent s = .ok (a, s') → al bp = true → AInv al s.pc s.nodes → AInv al s'.pc s'.nodes
+  cont : ∀ bp node s a s', bpContinue bp node s = .ok (a, s') → al bp = true → node ≠ 0 → AInv al s.pc s.nodes →
+    AInv al s'.pc s'.nodes
+  close : ∀ bp node s a s', bpClose bp node s = .ok (a, s') → al bp = true → node ≠ 0 → AInv al s.pc s.nodes →
+    AInv al s'.pc s'.nodes
   req : ∀ bp parent s (a : Option Nat × PState) s', bpOpen bp parent s = .ok (a, s') → a.2.requirePara = true →
     s.pc.opened.getLast? ≠ none
   nonePos : ∀ bp parent s (a : Option Nat × PState) s', bpOpen bp parent s = .ok (a, s') → a.1 = none →
     s'.r.pos = s.r.pos
   contOpened : ∀ bp node s a s', bpContinue bp node s = .ok (a, s') → s'.pc.opened = s.pc.opened
+
+/-- the rest of the current line of A (from position `p` of line `ls`) is not blank -/
+def NBV (src : Bytes) (ls p : Nat) : Prop := isBlank ((viewA src ls p).getD []) = false
+
+/-- unary facts about run A ("a non-blank line always opens a block"): on a rest of line that is not blank the
+    paragraph parser opens a block, and so does the code block parser when the line is indented by more than three
+    columns -/
+structure OT (src : Bytes) : Prop where
+  para : ∀ k ls p q sA sB (a : Option Nat × PState) sA', SR src k ls p sA sB → NBV src ls p →
+    bpOpen .paragraph q sA = .ok (a, sA') → a.1 ≠ none
+  code : ∀ k ls p q sA sB (a : Option Nat × PState) sA' (lo : Int), SR src k ls p sA sB → NBV src ls p →
+    3 < (indentWidthI ((viewA src ls p).getD []) lo).1 → bpOpen .code q sA = .ok (a, sA') → a.1 ≠ none
+
+/-- what run A's `tryParsers` answers: the result it was given or `newBlocksOpened`; and `newBlocksOpened` when it was
+    given `noBlocksOpened` on a rest of line that is not blank, the last opened block is no paragraph, and the candidate
+    list contains the parser that takes such a line (paragraph: indent ≤ 3; code block: indent > 3) -/
+def TPU (src : Bytes) (ls p : Nat) (cont : Bool) (w : Int) (bps : List BP) (result : OpenResult) (r : OpenResult) : Prop :=
+  (r = result ∨ r = .newBlocksOpened) ∧
+  (cont = false → result = .noBlocksOpened → NBV src ls p → (w ≤ 3 → BP.paragraph ∈ bps) →
+    (3 < w → BP.code ∈ bps ∧ ∃ lo : Int, w = (indentWidthI ((viewA src ls p).getD []) lo).1) → r = .newBlocksOpened)
 
 theorem int_beq_congr {x y x' y' : Int} (h : x = y ↔ x' = y') : (x == y) = (x' == y') := by
   by_cases h1 : x = y
@@ -144,8 +169,8 @@ theorem blockAt_q (l : List Block) (i : Int) (b : Block) (h : blockAt l i = .ok 
       exact ⟨trivial, List.mem_of_getElem? hg, by omega⟩
 
 theorem closeLoop_sim {src al} (ps : PS src al) (fr : Frames al) (l : List Block) (hl : OKB al l) (to : Int) :
-    ∀ (n : Nat) {k ls p} {sA sB : St}, SR src k ls p sA sB → AInv al sA.pc →
-      S2 (fun _ _ sA' sB' => SR src k ls p sA' sB' ∧ AInv al sA'.pc)
+    ∀ (n : Nat) {k ls p} {sA sB : St}, SR src k ls p sA sB → AInv al sA.pc sA.nodes →
+      S2 (fun _ _ sA' sB' => SR src k ls p sA' sB' ∧ AInv al sA'.pc sA'.nodes)
         (closeLoop l to n sA) (closeLoop (bqBlock :: l.map shB) (to + 1) n sB) := by
   intro n
   induction n with
@@ -175,7 +200,7 @@ theorem closeLoop_sim {src al} (ps : PS src al) (fr : Frames al) (l : List Block
       by_cases hs : x.parent.isSome = true
       · rw [if_pos hs, if_pos hs]
         refine S2.bind (S2.andL (ps.close a.bp hal k ls p a.node sA sB h hn0 ha)
-          (F := fun _ sA' => AInv al sA'.pc) (fun _ sA' e => fr.close _ _ _ _ _ e ha))
+          (F := fun _ sA' => AInv al sA'.pc sA'.nodes) (fun _ sA' e => fr.close _ _ _ _ _ e hal hn0 ha))
           (fun _ _ sA3 sB3 h3 => ih h3.1 h3.2)
       · rw [if_neg hs, if_neg hs]; exact ih h ha
 
@@ -208,19 +233,20 @@ theorem slice'_q2 (l : List Block) (a b : Int) (x : List Block) (h : closeBlocks
 /-- the driver-level relation inside a line: `SR` plus the invariant on A's opened blocks -/
 structure DR (src : Bytes) (al : BP → Bool) (k ls p : Nat) (sA sB : St) : Prop where
   s : SR src k ls p sA sB
-  a : AInv al sA.pc
+  a : AInv al sA.pc sA.nodes
 
-theorem closeBlocks_tail {src al} {k ls p} {sA0 : St} {sA sB : St} (h3 : SR src k ls p sA sB) (ha : AInv al sA.pc)
+theorem closeBlocks_tail {src al} {k ls p} {sA0 : St} {sA sB : St} (h3 : SR src k ls p sA sB) (ha : AInv al sA.pc sA.nodes)
     (x : List Block) (hm : ∀ z ∈ x, z ∈ sA0.pc.opened) (hok : OKB al sA0.pc.opened) :
     S2 (fun _ _ sA' sB' => DR src al k ls p sA' sB')
       ((modPc fun pc => { pc with opened := x }) sA) ((modPc fun pc => { pc with opened := bqBlock :: x.map shB }) sB) := by
-  refine S2.mono (S2.andL (modPc_s2 h3 _ _ (fun a b hab => ?_)) (F := fun _ sA' => sA'.pc = { sA.pc with opened := x })
+  refine S2.mono (S2.andL (modPc_s2 h3 _ _ (fun a b hab => ?_))
+    (F := fun _ sA' => sA' = { sA with pc := { sA.pc with opened := x } })
     (fun a sA' e => ?_)) (fun _ _ sA' sB' hh => ?_)
   · exact { hab with opened := rfl }
   · unfold modPc at e; cases e; rfl
   · refine ⟨hh.1, ?_⟩
     rw [hh.2]
-    exact ⟨fun z hz => hok z (hm z hz), ha.tmp, ha.fence⟩
+    exact ⟨fun z hz => hok z (hm z hz), ha.tmp, ha.fence, ha.u⟩
 
 theorem closeBlocks_sim {src al} (ps : PS src al) (fr : Frames al) {k ls p} {sA sB : St} (h : DR src al k ls p sA sB)
     (frm to : Int) :
@@ -244,7 +270,7 @@ theorem closeBlocks_sim {src al} (ps : PS src al) (fr : Frames al) {k ls p} {sA 
   by_cases hf : (frm == (sA.pc.opened.length : Int) - 1) = true
   · rw [if_pos hf, if_pos hf]
     refine S2.bind (P := fun x y sA' sB' => y = bqBlock :: x.map shB ∧ (∀ z ∈ x, z ∈ sA.pc.opened) ∧
-      SR src k ls p sA' sB' ∧ AInv al sA'.pc) (S2.liftE (fun x hx => ?_)) (fun x y sA3 sB3 hq => ?_)
+      SR src k ls p sA' sB' ∧ AInv al sA'.pc sA'.nodes) (S2.liftE (fun x hx => ?_)) (fun x y sA3 sB3 hq => ?_)
     · obtain ⟨e, hm⟩ := slice'_q _ _ _ x hx rfl
       exact ⟨_, e, rfl, hm, h2, ha2⟩
     · obtain ⟨hy, hm, h3, ha3⟩ := hq
@@ -252,20 +278,20 @@ theorem closeBlocks_sim {src al} (ps : PS src al) (fr : Frames al) {k ls p} {sA 
       exact closeBlocks_tail h3 ha3 x hm h.a.opened
   · rw [if_neg hf, if_neg hf]
     refine S2.bind (P := fun x y sA' sB' => y = bqBlock :: x.map shB ∧ (∀ z ∈ x, z ∈ sA.pc.opened) ∧
-        SR src k ls p sA' sB' ∧ AInv al sA'.pc) (S2.liftE (fun x hx => ?_)) (fun x y sA3 sB3 hq => ?_)
+        SR src k ls p sA' sB' ∧ AInv al sA'.pc sA'.nodes) (S2.liftE (fun x hx => ?_)) (fun x y sA3 sB3 hq => ?_)
     · obtain ⟨e, hm⟩ := slice'_q _ _ _ x hx rfl
       exact ⟨_, e, rfl, hm, h2, ha2⟩
     · obtain ⟨hy, hm, h3, ha3⟩ := hq
       subst hy
       refine S2.bind (P := fun x' y' sA' sB' => y' = x'.map shB ∧ (∀ z ∈ x', z ∈ sA.pc.opened) ∧
-          SR src k ls p sA' sB' ∧ AInv al sA'.pc) (S2.liftE (fun x' hx' => ?_)) (fun x' y' sA4 sB4 hq => ?_)
+          SR src k ls p sA' sB' ∧ AInv al sA'.pc sA'.nodes) (S2.liftE (fun x' hx' => ?_)) (fun x' y' sA4 sB4 hq => ?_)
       · rw [show frm + 1 + 1 = (frm + 1) + 1 by rfl]
         obtain ⟨e, hm'⟩ := slice'_q2 _ _ _ x' hx'
         exact ⟨_, e, rfl, hm', h3, ha3⟩
       · obtain ⟨hy', hm', h4, ha4⟩ := hq
         subst hy'
         refine S2.bind (P := fun x'' y'' sA' sB' => y'' = bqBlock :: x''.map shB ∧ (∀ z ∈ x'', z ∈ sA.pc.opened) ∧
-          SR src k ls p sA' sB' ∧ AInv al sA'.pc) (S2.pure ⟨by simp, fun z hz => ?_, h4, ha4⟩) (fun x'' y'' sA5 sB5 hq => ?_)
+          SR src k ls p sA' sB' ∧ AInv al sA'.pc sA'.nodes) (S2.pure ⟨by simp, fun z hz => ?_, h4, ha4⟩) (fun x'' y'' sA5 sB5 hq => ?_)
         · rcases List.mem_append.mp hz with hz | hz
           · exact hm z hz
           · exact hm' z hz
@@ -280,7 +306,7 @@ structure LR (al : BP → Bool) (a b : Option Block) : Prop where
   rel : LastRel a b
   ok : ∀ x, a = some x → al x.bp = true ∧ x.node ≠ 0
 
-theorem LR.of_ctx {al} {pa pb : Ctx} (hc : CtxRel pa pb) (ha : AInv al pa) : LR al pa.opened.getLast? pb.opened.getLast? :=
+theorem LR.of_ctx {al} {pa pb : Ctx} {n : List Node} (hc : CtxRel pa pb) (ha : AInv al pa n) : LR al pa.opened.getLast? pb.opened.getLast? :=
   ⟨hc.last, fun x hx => ha.opened x (List.mem_of_getLast? hx)⟩
 
 def OutRel : TryOutcome → TryOutcome → Prop
@@ -325,18 +351,20 @@ theorem tpTail2_sim {src al} {cont : Bool} {k ls p} {sA sB : St} (h : DR src al 
     S2 (fun a b sA' sB' => (TryRel al cont a b ∧ a.2.1 = .newBlocksOpened ∧ b.2.1 = .newBlocksOpened) ∧ DR src al k ls p sA' sB')
       (tpTail2 q node bp state lbA sA) (tpTail2 (q + 1) (node + 1) bp state lbB sB) := by
   unfold tpTail2
-  refine S2.bind (S2.andL (appendChild_s2 h.s q node hn0) (F := fun _ sA' => sA'.pc = sA.pc)
-    (fun a sA' e => appendChild_pck q node sA a sA' e)) (fun _ _ sA1 sB1 hq => ?_)
-  obtain ⟨h1, hpc1⟩ := hq
+  refine S2.bind (S2.andL (appendChild_s2 h.s q node hn0) (F := fun _ sA' => sA'.pc = sA.pc ∧ UStore sA'.nodes)
+    (fun a sA' e => ⟨appendChild_pck q node sA a sA' e, us_appendChild q node hn0 sA a sA' h.a.u e⟩)) (fun _ _ sA1 sB1 hq => ?_)
+  obtain ⟨h1, hpc1, hu1⟩ := hq
   refine S2.bind (S2.andL (modPc_s2 h1 _ _ (fun a b hab => ?_))
-    (F := fun _ sA' => sA'.pc = { sA1.pc with opened := sA1.pc.opened ++ [{ node := node, bp := bp }] })
+    (F := fun _ sA' => sA' = { sA1 with pc := { sA1.pc with opened := sA1.pc.opened ++ [{ node := node, bp := bp }] } })
     (fun a sA' e => ?_)) (fun _ _ sA2 sB2 hq => ?_)
   · exact { hab with opened := by simp [hab.opened, shB] }
   · unfold modPc at e; cases e; rfl
   · obtain ⟨h2, hpc2⟩ := hq
-    have ha2 : AInv al sA2.pc := by
-      rw [hpc2, hpc1]
-      refine ⟨fun z hz => ?_, h.a.tmp, h.a.fence⟩
+    have ha2 : AInv al sA2.pc sA2.nodes := by
+      rw [hpc2]
+      simp only
+      rw [hpc1]
+      refine ⟨fun z hz => ?_, h.a.tmp, h.a.fence, hu1⟩
       rcases List.mem_append.mp hz with hz | hz
       · exact h.a.opened z hz
       · simp only [List.mem_singleton] at hz; subst hz; exact ⟨hal, hn0⟩
@@ -364,11 +392,12 @@ theorem tpTail1_sim {src al} {cont : Bool} (ps : PS src al) (fr : Frames al) {k 
     S2 (fun a b sA' sB' => (TryRel al cont a b ∧ a.2.1 = .newBlocksOpened ∧ b.2.1 = .newBlocksOpened) ∧ DR src al k ls p sA' sB')
       (tpTail1 bA q node bp state lbA sA) (tpTail1 bB (q + 1) (node + 1) bp state lbB sB) := by
   unfold tpTail1
-  refine S2.bind (S2.andL (modNode_s2 h.s node _ _ (fun a b hab => ?_)) (F := fun _ sA' => sA'.pc = sA.pc)
-    (fun a sA' e => modNode_pck _ _ sA a sA' e)) (fun _ _ sA1 sB1 hq => ?_)
+  refine S2.bind (S2.andL (modNode_s2 h.s node _ _ (fun a b hab => ?_)) (F := fun _ sA' => sA'.pc = sA.pc ∧ UStore sA'.nodes)
+    (fun a sA' e => ⟨modNode_pck _ _ sA a sA' e,
+      us_modNode node (fun n => { n with blankPrev := bA }) (fun n hn => ⟨hn.kind, hn.kids⟩) (fun _ _ => rfl) sA a sA' h.a.u e⟩)) (fun _ _ sA1 sB1 hq => ?_)
   · exact { hab with }
-  obtain ⟨h1, hpc1⟩ := hq
-  have hd1 : DR src al k ls p sA1 sB1 := ⟨h1, hpc1 ▸ h.a⟩
+  obtain ⟨h1, hpc1, hu1⟩ := hq
+  have hd1 : DR src al k ls p sA1 sB1 := ⟨h1, by rw [hpc1]; exact ⟨h.a.opened, h.a.tmp, h.a.fence, hu1⟩⟩
   rcases hl.rel with ⟨e1, e2⟩ | ⟨x, e1, e2⟩
   · subst e1 e2
     simp only [Option.map_none, Option.map_some, bqBlock]
@@ -447,7 +476,7 @@ theorem tpReqJp_sim {src al} {cont : Bool} (ps : PS src al) (fr : Frames al) {k 
       (tpReqJp bB (q + 1) (node + 1) bp state lbB (bqBlock :: blocks.map shB) (shB lb) sB) := by
   unfold tpReqJp
   refine S2.bind (S2.andL (modPc_s2 h.s _ _ (fun a b hab => ?_))
-    (F := fun _ sA' => sA'.pc = { sA.pc with opened := blocks.dropLast })
+    (F := fun _ sA' => sA' = { sA with pc := { sA.pc with opened := blocks.dropLast } })
     (fun a sA' e => ?_)) (fun _ _ sA2 sB2 hq => ?_)
   · exact { hab with opened := dropLast_q blocks hb }
   · unfold modPc at e; cases e; rfl
@@ -455,7 +484,7 @@ theorem tpReqJp_sim {src al} {cont : Bool} (ps : PS src al) (fr : Frames al) {k 
     have hd2 : DR src al k ls p sA2 sB2 := by
       refine ⟨h2, ?_⟩
       rw [hpc2]
-      exact ⟨fun z hz => hbo z (List.dropLast_subset _ hz), h.a.tmp, h.a.fence⟩
+      exact ⟨fun z hz => hbo z (List.dropLast_subset _ hz), h.a.tmp, h.a.fence, h.a.u⟩
     simp only [shB]
     refine S2.bind (getNode_s2' h2 lb.node) (fun a b sA3 sB3 hq => ?_)
     obtain ⟨hab, e1, e2⟩ := hq
@@ -471,17 +500,22 @@ theorem tpReqJp_sim {src al} {cont : Bool} (ps : PS src al) (fr : Frames al) {k 
     · rw [if_neg hkp, if_neg hkp]
       exact tpTail1_sim ps fr hd2 bA bB q node hn0 bp hal state hl
 
-theorem tryParsers_sim {src al} (ps : PS src al) (fr : Frames al) (bA bB cont : Bool) (w : Int) (q : Nat) :
+theorem tryParsers_sim {src al} (ps : PS src al) (fr : Frames al) (ot : OT src) (bA bB cont : Bool) (w : Int) (q : Nat) :
     ∀ (bps : List BP), (∀ bp ∈ bps, al bp = true) → ∀ (result resultB : OpenResult) (lbA lbB : Option Block)
       {k ls p : Nat} {sA sB : St}, DR src al k ls p sA sB → LRw al lbA lbB → RRes cont result resultB →
-      S2 (fun a b sA' sB' => TryRel al cont a b ∧ (resultB = result → b.2.1 = a.2.1) ∧ ∃ p', DR src al k ls p' sA' sB')
+      S2 (fun a b sA' sB' => TryRel al cont a b ∧ (resultB = result → b.2.1 = a.2.1) ∧ (∃ p', DR src al k ls p' sA' sB') ∧
+          TPU src ls p cont w bps result a.2.1)
         (tryParsers q bA cont w bps result lbA sA) (tryParsers (q + 1) bB cont w bps resultB lbB sB) := by
   intro bps
   induction bps with
   | nil =>
     intro _ result resultB lbA lbB k ls p sA sB h hl hres
     unfold tryParsers
-    exact S2.pure ⟨⟨trivial, hres, hl, fun hh => absurd rfl hh⟩, fun e => e, p, h⟩
+    refine S2.pure ⟨⟨trivial, hres, hl, fun hh => absurd rfl hh⟩, fun e => e, ⟨p, h⟩, .inl rfl, ?_⟩
+    intro _ _ _ h1 h2
+    by_cases hw : w ≤ 3
+    · exact absurd (h1 hw) (by simp)
+    · exact absurd (h2 (by omega)).1 (by simp)
   | cons bp bps ih =>
     intro hbps result resultB lbA lbB k ls p sA sB h hl hres
     have hal : al bp = true := hbps bp (by simp)
@@ -489,30 +523,67 @@ theorem tryParsers_sim {src al} (ps : PS src al) (fr : Frames al) (bA bB cont : 
     unfold tryParsers
     rw [hres.cond]
     by_cases hs1 : (cont && result == OpenResult.noBlocksOpened && !bp.canInterruptParagraph) = true
-    · rw [if_pos hs1, if_pos hs1]; exact ih' result resultB lbA lbB h hl hres
+    · rw [if_pos hs1, if_pos hs1]
+      refine S2.mono (ih' result resultB lbA lbB h hl hres) (fun _ _ _ _ hh => ⟨hh.1, hh.2.1, hh.2.2.1, hh.2.2.2.1, ?_⟩)
+      intro hc; rw [hc] at hs1; simp at hs1
     rw [if_neg hs1, if_neg hs1]
     by_cases hs2 : (decide (w > 3) && !bp.canAcceptIndentedLine) = true
-    · rw [if_pos hs2, if_pos hs2]; exact ih' result resultB lbA lbB h hl hres
+    · rw [if_pos hs2, if_pos hs2]
+      refine S2.mono (ih' result resultB lbA lbB h hl hres) (fun _ _ _ _ hh => ⟨hh.1, hh.2.1, hh.2.2.1, hh.2.2.2.1, ?_⟩)
+      intro hc hr hnb h1 h2
+      simp only [Bool.and_eq_true, decide_eq_true_eq, Bool.not_eq_true'] at hs2
+      refine hh.2.2.2.2 hc hr hnb (fun hw => by omega) (fun hw => ?_)
+      obtain ⟨hm, hlo⟩ := h2 hw
+      refine ⟨?_, hlo⟩
+      rcases List.mem_cons.mp hm with e | e
+      · rw [← e] at hs2; exact absurd hs2.2 (by decide)
+      · exact e
     rw [if_neg hs2, if_neg hs2]
     refine S2.bind (lastOpenedBlock_s2 h.s) (fun lA lB sA1 sB1 hq => ?_)
     obtain ⟨hlr, hlA, e1, e2⟩ := hq
     rw [e1, e2]
     have hl' : LR al lA lB := ⟨hlr, fun x hx => h.a.opened x (List.mem_of_getLast? (hlA ▸ hx))⟩
     refine S2.bind (S2.andL (ps.open_ bp hal k ls p q sA sB h.s)
-      (F := fun a sA' => AInv al sA'.pc ∧ (a.2.requirePara = true → sA.pc.opened.getLast? ≠ none) ∧
-        (a.1 = none → sA'.r.pos = sA.r.pos))
-      (fun a sA' e => ⟨fr.open_ _ _ _ _ _ e h.a, fr.req _ _ _ _ _ e, fr.nonePos _ _ _ _ _ e⟩)) (fun a b sA2 sB2 hq => ?_)
-    obtain ⟨⟨⟨hst, hnode⟩, p', _, h2⟩, ha2, hreq, hnp⟩ := hq
+      (F := fun a sA' => AInv al sA'.pc sA'.nodes ∧ (a.2.requirePara = true → sA.pc.opened.getLast? ≠ none) ∧
+        (a.1 = none → sA'.r.pos = sA.r.pos) ∧
+        (NBV src ls p → (bp = .paragraph → a.1 ≠ none) ∧
+          (bp = .code → (∃ lo : Int, 3 < (indentWidthI ((viewA src ls p).getD []) lo).1) → a.1 ≠ none)))
+      (fun a sA' e => ⟨fr.open_ _ _ _ _ _ e hal h.a, fr.req _ _ _ _ _ e, fr.nonePos _ _ _ _ _ e, fun hnb =>
+        ⟨fun hbp => by subst hbp; exact ot.para k ls p q sA sB a sA' h.s hnb e,
+         fun hbp hlo => by subst hbp; obtain ⟨lo, hlo⟩ := hlo; exact ot.code k ls p q sA sB a sA' lo h.s hnb hlo e⟩⟩))
+      (fun a b sA2 sB2 hq => ?_)
+    obtain ⟨⟨⟨hst, hnode⟩, p', _, h2⟩, ha2, hreq, hnp, hopens⟩ := hq
     have hd2 : DR src al k ls p' sA2 sB2 := ⟨h2, ha2⟩
     obtain ⟨nodeA, stA⟩ := a
     obtain ⟨nodeB, stB⟩ := b
-    simp only at hst hnode hreq hnp ⊢
+    simp only at hst hnode hreq hnp hopens ⊢
     subst hst
     rcases hnode with ⟨e1, e2⟩ | ⟨n, hn0, e1, e2⟩
     · subst e1 e2
-      exact S2.mono (ih' result resultB lA lB hd2 (.inr hl') hres) (fun _ _ _ _ hh => hh)
+      have hpp : p' = p := by
+        have e1 := h2.r.a.pos
+        have e2 := h.s.r.a.pos
+        rw [hnp rfl, e2] at e1
+        have e3 := congrArg Segment.start e1
+        simp only at e3
+        omega
+      subst hpp
+      refine S2.mono (ih' result resultB lA lB hd2 (.inr hl') hres) (fun _ _ _ _ hh => ⟨hh.1, hh.2.1, hh.2.2.1, hh.2.2.2.1, ?_⟩)
+      intro hc hr hnb h1 h2'
+      obtain ⟨ho1, ho2⟩ := hopens hnb
+      refine hh.2.2.2.2 hc hr hnb (fun hw => ?_) (fun hw => ?_)
+      · rcases List.mem_cons.mp (h1 hw) with e | e
+        · exact absurd rfl (ho1 e.symm)
+        · exact e
+      · obtain ⟨hm, lo, hlo⟩ := h2' hw
+        refine ⟨?_, lo, hlo⟩
+        rcases List.mem_cons.mp hm with e | e
+        · exact absurd rfl (ho2 e.symm ⟨lo, by rw [← hlo]; exact hw⟩)
+        · exact e
     · subst e1 e2
       simp only
+      have hfin : ∀ r : OpenResult, r = .newBlocksOpened → TPU src ls p cont w (bp :: bps) result r :=
+        fun r hr => ⟨.inr hr, fun _ _ _ _ _ => hr⟩
       by_cases hrq : stB.requirePara = true
       · rw [if_pos hrq, if_pos hrq]
         have hsome := hreq hrq
@@ -534,7 +605,7 @@ theorem tryParsers_sim {src al} (ps : PS src al) (fr : Frames al) (bA bB cont : 
         · rw [if_pos hc, if_pos hc]
           simp only [shB]
           refine S2.bind (S2.andL (ps.close x.bp halx k ls p' x.node sA2 sB2 h2 hx0 ha2)
-            (F := fun _ sA' => AInv al sA'.pc) (fun _ sA' e => fr.close _ _ _ _ _ e ha2)) (fun _ _ sA4 sB4 hq => ?_)
+            (F := fun _ sA' => AInv al sA'.pc sA'.nodes) (fun _ sA' e => fr.close _ _ _ _ _ e halx hx0 ha2)) (fun _ _ sA4 sB4 hq => ?_)
           obtain ⟨h4, ha4⟩ := hq
           refine S2.bind (getPc_s2 h4) (fun pa pb sA5 sB5 hq => ?_)
           obtain ⟨ea, eb, hcr, e1, e2⟩ := hq
@@ -551,11 +622,13 @@ theorem tryParsers_sim {src al} (ps : PS src al) (fr : Frames al) (bA bB cont : 
             have hne : sA4.pc.opened ≠ [] := by
               intro e; apply hlen; rw [e]; rfl
             exact S2.mono (tpReqJp_sim ps fr ⟨h4, ha4⟩ bA bB q n hn0 bp hal stB hl' sA4.pc.opened hne ha4.opened x hx0)
-              (fun _ _ _ _ hh => ⟨hh.1.1, fun _ => by rw [hh.1.2.1, hh.1.2.2], p', hh.2⟩)
+              (fun _ _ _ _ hh => ⟨hh.1.1, fun _ => by rw [hh.1.2.1, hh.1.2.2], ⟨p', hh.2⟩, hfin _ hh.1.2.1⟩)
         · rw [if_neg hc, if_neg hc]
-          exact S2.mono (tpTail1_sim ps fr hd2 bA bB q n hn0 bp hal stB hl') (fun _ _ _ _ hh => ⟨hh.1.1, fun _ => by rw [hh.1.2.1, hh.1.2.2], p', hh.2⟩)
+          exact S2.mono (tpTail1_sim ps fr hd2 bA bB q n hn0 bp hal stB hl')
+            (fun _ _ _ _ hh => ⟨hh.1.1, fun _ => by rw [hh.1.2.1, hh.1.2.2], ⟨p', hh.2⟩, hfin _ hh.1.2.1⟩)
       · rw [if_neg hrq, if_neg hrq]
-        exact S2.mono (tpTail1_sim ps fr hd2 bA bB q n hn0 bp hal stB hl') (fun _ _ _ _ hh => ⟨hh.1.1, fun _ => by rw [hh.1.2.1, hh.1.2.2], p', hh.2⟩)
+        exact S2.mono (tpTail1_sim ps fr hd2 bA bB q n hn0 bp hal stB hl')
+          (fun _ _ _ _ hh => ⟨hh.1.1, fun _ => by rw [hh.1.2.1, hh.1.2.2], ⟨p', hh.2⟩, hfin _ hh.1.2.1⟩)
 
 /-! ### the relation with `BlockOffset` / `BlockIndent` left open (they are rewritten by every retry of openBlocks
     before anything reads them) -/
@@ -574,7 +647,7 @@ structure DRL (src : Bytes) (al : BP → Bool) (k ls p : Nat) (sA sB : St) : Pro
   r : R3 src k ls p sA.r sB.r
   n : StoreRel src sA.nodes sB.nodes
   c : CtxRelL sA.pc sB.pc
-  a : AInv al sA.pc
+  a : AInv al sA.pc sA.nodes
 
 theorem DR.loose {src al k ls p sA sB} (h : DR src al k ls p sA sB) : DRL src al k ls p sA sB :=
   ⟨h.s.r, h.s.n, h.s.c.loose, h.a⟩
@@ -615,10 +688,10 @@ theorem lineOffset_l {src al k ls p} {sA sB : St} (h : DRL src al k ls p sA sB) 
 
 /-- the first thing a retry of openBlocks does: publish the block offset; afterwards the contexts agree on it -/
 theorem modPc_l {src al k ls p} {sA sB : St} (h : DRL src al k ls p sA sB) (fA fB : Ctx → Ctx)
-    (hf : ∀ a b, CtxRelL a b → CtxRel (fA a) (fB b)) (hk : ∀ a, AInv al a → AInv al (fA a)) :
+    (hf : ∀ a b, CtxRelL a b → CtxRel (fA a) (fB b)) (hk : ∀ a n, AInv al a n → AInv al (fA a) n) :
     S2 (fun _ _ sA' sB' => DR src al k ls p sA' sB') (modPc fA sA) (modPc fB sB) := by
   unfold modPc
-  exact S2.ok ⟨⟨h.r, h.n, hf _ _ h.c⟩, hk _ h.a⟩
+  exact S2.ok ⟨⟨h.r, h.n, hf _ _ h.c⟩, hk _ _ h.a⟩
 
 /-! ### toContinuable -/
 
@@ -648,7 +721,7 @@ theorem toContinuable_sim {src al} (ps : PS src al) (fr : Frames al) (ns : NS sr
       simp only [shB]
       obtain ⟨hp, hnsp⟩ := ns k ls p h.s.r.inl
       refine S2.bind (S2.andL (ps.cont x.bp hal k ls p x.node sA sB h.s hx0 h.a hp hnsp)
-        (F := fun _ sA' => AInv al sA'.pc) (fun _ sA' e => fr.cont _ _ _ _ _ e h.a)) (fun a b sA1 sB1 hq => ?_)
+        (F := fun _ sA' => AInv al sA'.pc sA'.nodes) (fun _ sA' e => fr.cont _ _ _ _ _ e hal hx0 h.a)) (fun a b sA1 sB1 hq => ?_)
       obtain ⟨⟨hab, p', h1⟩, ha1⟩ := hq
       rw [hab]
       by_cases hcc : a.cont = true
